@@ -88,7 +88,45 @@ def _stores(stmts, names) -> bool:
     return False
 
 
+def _get_form(body: List[ast.stmt], tables: Dict[str, ast.Dict]) -> Optional[List[ast.stmt]]:
+    """x = T.get(SEL); if x is None: <ends>; a, b = x; rest      is rewritten to the subscript form N23 understands:
+       if SEL not in T: <ends>; a, b = T[SEL]; rest              (x must not be used in rest)"""
+    for i, st in enumerate(body):
+        if not (isinstance(st, ast.Assign) and len(st.targets) == 1 and isinstance(st.targets[0], ast.Name) and isinstance(st.value, ast.Call)
+                and isinstance(st.value.func, ast.Attribute) and st.value.func.attr == "get" and isinstance(st.value.func.value, ast.Name)
+                and st.value.func.value.id in tables and 1 <= len(st.value.args) <= 2 and not st.value.keywords):
+            continue
+        if len(st.value.args) == 2 and not (isinstance(st.value.args[1], ast.Constant) and st.value.args[1].value is None):
+            continue
+        x, tname, sel = st.targets[0].id, st.value.func.value.id, st.value.args[0]
+        if i + 2 >= len(body) + 0 and i + 1 >= len(body):
+            continue
+        guard = body[i + 1] if i + 1 < len(body) else None
+        if not (isinstance(guard, ast.If) and not guard.orelse and isinstance(guard.test, ast.Compare) and len(guard.test.ops) == 1
+                and isinstance(guard.test.ops[0], ast.Is) and isinstance(guard.test.left, ast.Name) and guard.test.left.id == x
+                and isinstance(guard.test.comparators[0], ast.Constant) and guard.test.comparators[0].value is None
+                and guard.body and isinstance(guard.body[-1], (ast.Raise, ast.Return))):
+            continue
+        nxt = body[i + 2] if i + 2 < len(body) else None
+        if not (isinstance(nxt, ast.Assign) and len(nxt.targets) == 1 and isinstance(nxt.value, ast.Name) and nxt.value.id == x):
+            continue
+        rest = body[i + 3:]
+        if any(isinstance(n, ast.Name) and n.id == x for s_ in rest for n in ast.walk(s_)) or any(isinstance(n, ast.Name) and n.id == x for s_ in guard.body for n in ast.walk(s_)):
+            continue
+        new_guard = ast.copy_location(ast.If(test=ast.Compare(left=copy.deepcopy(sel), ops=[ast.NotIn()], comparators=[ast.Name(id=tname, ctx=ast.Load())]),
+                                             body=guard.body, orelse=[]), guard)
+        new_assign = ast.copy_location(ast.Assign(targets=nxt.targets, value=ast.Subscript(value=ast.Name(id=tname, ctx=ast.Load()), slice=copy.deepcopy(sel), ctx=ast.Load())), nxt)
+        out = body[:i] + [new_guard, new_assign] + rest
+        for s_ in out:
+            ast.fix_missing_locations(s_)
+        return out
+    return None
+
+
 def _expand_block(body: List[ast.stmt], tables: Dict[str, ast.Dict]) -> Optional[List[ast.stmt]]:
+    pre_form = _get_form(body, tables)
+    if pre_form is not None:
+        body = pre_form
     for i, st in enumerate(body):
         if not (isinstance(st, ast.Assign) and len(st.targets) == 1 and isinstance(st.value, ast.Subscript)
                 and isinstance(st.value.value, ast.Name) and st.value.value.id in tables):
@@ -143,7 +181,7 @@ def _expand_block(body: List[ast.stmt], tables: Dict[str, ast.Dict]) -> Optional
             continue
         ast.fix_missing_locations(chain)
         return pre + [chain]
-    return None
+    return pre_form
 
 
 def expand_table_dispatch(tree: ast.Module) -> int:
